@@ -390,10 +390,16 @@ bool ManifestParser::ParseEdge(string* err) {
     // build graph but that has since been fixed.  Filter them out to
     // support users of those old CMake versions.
     Node* out = edge->outputs_[0];
+    // The self reference may sit among the order-only inputs: keep the count
+    // in step, or the last explicit inputs would turn into order-only ones.
+    int removed_order_only = static_cast<int>(
+        count(edge->inputs_.end() - edge->order_only_deps_,
+              edge->inputs_.end(), out));
     vector<Node*>::iterator new_end =
         remove(edge->inputs_.begin(), edge->inputs_.end(), out);
     if (new_end != edge->inputs_.end()) {
       edge->inputs_.erase(new_end, edge->inputs_.end());
+      edge->order_only_deps_ -= removed_order_only;
       if (!quiet_) {
         Warning("phony target '%s' names itself as an input; "
                 "ignoring [-w phonycycle=warn]",
